@@ -262,10 +262,15 @@ class Arbiter(object):
                                      self.pubsub_endpoint, self.check_delay,
                                      self.ssh_server, debug=self.debug)
 
+                # (the same keys as the configuration the plugin's watcher
+                # was built from at start-up: a key missing here would make
+                # every reload see a changed plugin)
                 cfg.update(dict(cmd=cmd, priority=1, singleton=True,
                                 stdout_stream=self.stdout_stream,
                                 stderr_stream=self.stderr_stream,
-                                copy_env=True, copy_path=True))
+                                copy_env=True, copy_path=True,
+                                close_child_stderr=self.stderr_stream is None,
+                                close_child_stdout=self.stdout_stream is None))
                 return cfg
         return None
 
